@@ -19,7 +19,9 @@ Import ListNotations. Open Scope string_scope.
      forall g, wf g = true -> is_ok (dump_check g) = true /\
                exists g', load (save g) = Ok g' /\ restored g g'.
    The faithful model refutes it twice (C05_row_valued_field_refuted, C05_unrepresentable_value_refuted);
-   [snapshot_ok] excludes exactly those two classes of field values. *)
+   [snapshot_ok] excludes exactly those two classes of field values (rows; forward / random /
+   literal references).  Decimals were in the second class until the Decimal representer was
+   added (C05_decimal_value_restored). *)
 
 (* loading the written tree restores every component *)
 Theorem C05_load_save :
@@ -102,12 +104,20 @@ Theorem C05_row_valued_field_refuted :
 Proof. exact row_valued_field_refuted. Qed.
 Print Assumptions C05_row_valued_field_refuted.
 
-(* K2: Decimal / forward reference / random reference / literal reference: writing raises *)
+(* K2: forward reference / random reference / literal reference: writing raises *)
 Theorem C05_unrepresentable_value_refuted :
-  forall v, In v [VDec "1.50"; VSlot "B" (Some 1); VLazy "B" 1; VRef "Zed" 5] ->
+  forall v, In v [VSlot "B" (Some 1); VLazy "B" 1; VRef "Zed" 5] ->
             wf (k2_state v) = true /\ dump_check (k2_state v) = representer_error.
 Proof. exact unrepresentable_value_refuted. Qed.
 Print Assumptions C05_unrepresentable_value_refuted.
+
+(* repaired part of K2 (Decimal representer + loader): every Decimal is written and, by
+   C05_load_save, restored with its type tag *)
+Theorem C05_decimal_value_restored :
+  forall txt, snapshot_ok (k2_state (VDec txt)) = true /\
+              dump_check (k2_state (VDec txt)) = Ok (save (k2_state (VDec txt))).
+Proof. exact decimal_value_restored. Qed.
+Print Assumptions C05_decimal_value_restored.
 
 Theorem C05_dump_total_refuted : ~ (forall g, wf g = true -> is_ok (dump_check g) = true).
 Proof. exact dump_total_refuted. Qed.
@@ -117,7 +127,7 @@ Print Assumptions C05_dump_total_refuted.
 Definition ex_row : row :=
   mkRow "J" [("s_num", VStr "0012"); ("id", VInt 1); ("s_yes", VStr "yes"); ("null", VStr "null");
              ("big", VInt (2 ^ 200)); ("flt", VFloat "0x1.5555555555555p-2"); ("b", VBool true);
-             ("n", VNull); ("d", VDate 737484); ("dt", VDateTime 63718534800000123 (Some 19800));
+             ("n", VNull); ("d", VDate 737484); ("amount", VDec "1.50"); ("dt", VDateTime 63718534800000123 (Some 19800));
              ("a: b", VStr (bs [97; 10; 98; 9; 194; 133]))].
 
 Definition ex_state : globals :=
@@ -134,7 +144,7 @@ Example C05_ex_fields_sorted_in_file :
   match save ex_state with
   | TMap (("id_manager", _) :: ("intertable_dependencies", _) :: ("nicknames_and_tables", _) ::
           ("persistent_nicknames", TMap [("jj", TMap [("_tablename", _); ("_values", TMap vs)])]) :: _) =>
-    map fst vs = ["a: b"; "b"; "big"; "d"; "dt"; "flt"; "id"; "n"; "null"; "s_num"; "s_yes"]
+    map fst vs = ["a: b"; "amount"; "b"; "big"; "d"; "dt"; "flt"; "id"; "n"; "null"; "s_num"; "s_yes"]
   | _ => False
   end.
 Proof. vm_compute. reflexivity. Qed.
@@ -148,6 +158,18 @@ Example C05_ex_roundtrip :
   | Err _ => False
   end.
 Proof. vm_compute. repeat split; reflexivity. Qed.
+
+(* regression of the repaired Decimal case: the former K2 witness round-trips with its type *)
+Example C05_ex_decimal_roundtrip :
+  match load (save (k2_state (VDec "1.50"))) with
+  | Ok g' => match lookup "jj" (g_nicks g'), lookup "J" (g_tables g') with
+             | Some r1, Some r2 => lookup "f" (r_values r1) = Some (VDec "1.50") /\
+                                   lookup "f" (r_values r2) = Some (VDec "1.50")
+             | _, _ => False
+             end
+  | Err _ => False
+  end.
+Proof. vm_compute. split; reflexivity. Qed.
 
 Example C05_ex_chain : (do g' <- chain 4 ex_state; dump_check g') = dump_check ex_state.
 Proof. vm_compute. reflexivity. Qed.
